@@ -325,7 +325,7 @@ fn classify_ok_diffs(op: &Op, verdict: &Verdict, pre: &MStore, expected: &MStore
             for (w, o) in adj.get(u).cloned().unwrap_or_default() { if !seen.contains_key(w) { let mut pth = here.clone(); pth.push(o); seen.insert(w, pth); queue.push_back(w); } }
           }
           found.and_then(|labels| {
-            let rank = |o: &String| if o.ends_with("<-var") { 0 } else if o.starts_with("destructure") { 1 } else if o.ends_with("<-var-idx") { 2 } else if o.ends_with("<-field") || o.ends_with("<-tuple-elem") || o.ends_with("<-map-get") { 4 } else { 3 };
+            let rank = |o: &String| if o.ends_with("<-var") || o.contains("<-built-") { 0 } else if o.starts_with("destructure") { 1 } else if o.ends_with("<-var-idx") { 2 } else if o.ends_with("<-field") || o.ends_with("<-tuple-elem") || o.ends_with("<-map-get") { 4 } else { 3 };
             labels.into_iter().min_by_key(|o| rank(o))
           })
         };
@@ -335,6 +335,7 @@ fn classify_ok_diffs(op: &Op, verdict: &Verdict, pre: &MStore, expected: &MStore
           Some(o) if o.ends_with("<-map-get") => "via-map-access",
           Some(o) if o.starts_with("destructure") => "via-destructure",
           Some(o) if o.ends_with("<-var") => "via-define-from-variable",
+          Some(o) if o.contains("<-built-") => "via-container-literal",
           Some(o) if o.ends_with("<-var-idx") => "via-index-access",
           Some(_) => "via-other-derivation",
           None => "unrelated-names",
